@@ -76,7 +76,7 @@ def model_line(line, impl_out):
                         pairs.append((node, d, k.split(".")[1]))
         else:
             node = None
-            if p[0] in ("C", "H", "P", "V"):
+            if p[0] in ("C", "H", "P", "V", "E"):
                 node = int(p[1])
             elif p[0] == "D":
                 k = int(p[1])
